@@ -152,3 +152,25 @@ Proof.
   unfold to_bytes_model. rewrite envs_equal, Ea, Hm, Hk. split; [reflexivity|].
   now rewrite <- !app_assoc.
 Qed.
+
+(* ---------------------------------------------------------------- layer 3, interpreted *)
+Lemma reload_same_automata : forall m v,
+  validator_automata rebuild_sites m v = validator_automata build_sites m v.
+Proof. intros. rewrite rebuild_sites_equal. reflexivity. Qed.
+
+(* the witness validator really is a value of the translated Validator schema *)
+Lemma greedy_witness_typed :
+  encode write_env greedy_witness (SRef "Validator"%string)
+  = Some [1; 3; 0; 0; 0; 97; 46; 43; 0; 0; 0; 0; 0; 8; 0; 0; 0; 97; 46; 43; 102; 111; 111; 46; 98; 0; 0; 0; 0; 0].
+Proof. vm_compute. reflexivity. Qed.
+
+(* as built: the reverse part runs backwards (MatchKind::All), the full expression forwards *)
+Lemma greedy_witness_as_built :
+  map (fun a => snd a) (validator_automata build_sites greedy_witness_modifiers greedy_witness) = [true; false].
+Proof. vm_compute. reflexivity. Qed.
+
+(* with the pinned literal the reloaded scanner holds a different automaton for the full expression *)
+Lemma reload_pinned_refuted :
+  validator_automata pinned_rebuild_sites greedy_witness_modifiers greedy_witness
+  <> validator_automata build_sites greedy_witness_modifiers greedy_witness.
+Proof. vm_compute. discriminate. Qed.
